@@ -59,7 +59,8 @@ def c02w_finish (l : Level) (dq db : List RnsPoly) (i : Nat) : R RnsPoly := do
 
 theorem c02w_bfvMultiply_eq (l : Level) (T : Array NTTTables) (a b : Ct) :
     bfvMultiply l T a b =
-      (if a.ntt ∨ b.ntt then .error .refused else do
+      (if a.ntt ∨ b.ntt then .error .refused else
+       if ctResizeRefuses (a.polys.size + b.polys.size - 1) then .error .refused else do
         let pa ← c02w_lift l T a
         let pb ← c02w_lift l T b
         if a.polys.size < 1 ∨ b.polys.size < 1 then .error .refused else do
@@ -955,7 +956,8 @@ def c02w_mulVal (l : Level) (a b : Ct) (k i c : Nat) : Nat :=
 theorem c02w_core {l : Level} {T : Array NTTTables} (hm : MulOK l T) {a b : Ct}
     (ha : ∀ k, k < a.polys.size → RnsCanon l (a.polys.getD k #[]))
     (hb : ∀ k, k < b.polys.size → RnsCanon l (b.polys.getD k #[]))
-    (hna : a.ntt = false) (hnb : b.ntt = false) (h1 : 1 ≤ a.polys.size) (h2 : 1 ≤ b.polys.size) :
+    (hna : a.ntt = false) (hnb : b.ntt = false) (h1 : 1 ≤ a.polys.size) (h2 : 1 ≤ b.polys.size)
+    (hsz : ctResizeRefuses (a.polys.size + b.polys.size - 1) = false) :
     ∃ outs : List RnsPoly, bfvMultiply l T a b = .ok { a with polys := outs.toArray } ∧
       outs.length = a.polys.size + b.polys.size - 1 ∧
       ∀ k, k < a.polys.size + b.polys.size - 1 → RnsCanon l (outs.getD k #[]) ∧
@@ -1009,7 +1011,7 @@ theorem c02w_core {l : Level} {T : Array NTTTables} (hm : MulOK l T) {a b : Ct}
         rfl)
   have hlen : outs.length = a.polys.size + b.polys.size - 1 := by rw [← hall.length_eq]; simp
   refine ⟨outs, ?_, hlen, fun k hk => ?_⟩
-  · rw [c02w_bfvMultiply_eq, if_neg (by simp [hna, hnb]), hA, ok_bind, hB, ok_bind, if_neg (by omega)]
+  · rw [c02w_bfvMultiply_eq, if_neg (by simp [hna, hnb]), if_neg (by simp [hsz]), hA, ok_bind, hB, ok_bind, if_neg (by omega)]
     dsimp only
     rw [hdq, ok_bind, hdb, ok_bind, hdq', hdb', houts]
     rfl
@@ -1941,18 +1943,20 @@ theorem c02w_ev_smul {S : Type} [CommRing S] (n : Nat) (ξ : S) (a : Int) (F : N
 /-! ### W1 -/
 
 /-- W1 (totality, shape, closed form).  For coefficient-form operands of ANY sizes ≥ 1 whose polynomials are canonical at a level
-    satisfying `MulOK`, `bfvMultiply` succeeds (no overflow / out-of-range branch is reachable); the result has
+    satisfying `MulOK` and whose destination size `resize` accepts (`ctResizeRefuses … = false`, i.e. 2 ≤ n1 + n2 − 1 ≤ 16; anything
+    else is refused: `bfvMultiply_refuse_size`), `bfvMultiply` succeeds (no overflow / out-of-range branch is reachable); the result has
     `size a + size b − 1` canonical polynomials, stays in coefficient form, keeps the correction factor, and every residue is the
     closed form `c02w_mulVal`. -/
 theorem bfvMultiply_ok {l : Level} {T : Array NTTTables} (hm : MulOK l T) {a b : Ct}
     (ha : ∀ k, k < a.polys.size → RnsCanon l (a.polys.getD k #[]))
     (hb : ∀ k, k < b.polys.size → RnsCanon l (b.polys.getD k #[]))
-    (hna : a.ntt = false) (hnb : b.ntt = false) (h1 : 1 ≤ a.polys.size) (h2 : 1 ≤ b.polys.size) :
+    (hna : a.ntt = false) (hnb : b.ntt = false) (h1 : 1 ≤ a.polys.size) (h2 : 1 ≤ b.polys.size)
+    (hsz : ctResizeRefuses (a.polys.size + b.polys.size - 1) = false) :
     ∃ r, bfvMultiply l T a b = .ok r ∧ r.polys.size = a.polys.size + b.polys.size - 1 ∧ r.ntt = false ∧ r.cf = a.cf ∧
       (∀ k, k < a.polys.size + b.polys.size - 1 → RnsCanon l (r.polys.getD k #[])) ∧
       ∀ k, k < a.polys.size + b.polys.size - 1 → ∀ i, i < l.size → ∀ c, c < l.n →
         r.c02v_res k i c = c02w_mulVal l a b k i c := by
-  obtain ⟨outs, hr, hlen, hv⟩ := c02w_core hm ha hb hna hnb h1 h2
+  obtain ⟨outs, hr, hlen, hv⟩ := c02w_core hm ha hb hna hnb h1 h2 hsz
   refine ⟨_, hr, by simpa using hlen, hna, rfl, fun k hk => ?_, fun k hk i hi c hc => ?_⟩
   · show RnsCanon l (outs.toArray.getD k #[])
     rw [c02v_toArray_getD]; exact (hv k hk).1
@@ -1966,6 +1970,7 @@ theorem bfvMultiply_canon {l : Level} {T : Array NTTTables} (hm : MulOK l T) {a 
     ∃ r, bfvMultiply l T a b = .ok r ∧ CtCanon l r ∧ r.polys.size = a.polys.size + b.polys.size - 1 ∧ r.ntt = false := by
   have h2a := ha.two_le; have h2b := hb.two_le
   obtain ⟨r, hr, hsz, hntt, hcf, hcan, _⟩ := bfvMultiply_ok hm ha.canon hb.canon hna hnb (by omega) (by omega)
+    ((ctResizeRefuses_eq_false_iff _).mpr (by omega))
   refine ⟨r, hr, ⟨⟨by omega, by omega, fun k hk => hcan k (by omega)⟩, ?_⟩, hsz, hntt⟩
   rw [hcf]; exact ha.cf
 
@@ -1974,7 +1979,29 @@ theorem bfvMultiply_refuse_ntt (l : Level) (T : Array NTTTables) (a b : Ct) (h :
     bfvMultiply l T a b = .error .refused := by
   rw [c02w_bfvMultiply_eq, if_pos h]
 
-/-- refusal: an operand without polynomials (after the lifts of both operands succeeded) -/
+/-- refusal (size): `resize` comes first in `bfv_multiply`; a destination size n1 + n2 − 1 that it refuses (1, or more than 16)
+    is refused whatever the operands and the level are -/
+theorem bfvMultiply_refuse_size (l : Level) (T : Array NTTTables) (a b : Ct)
+    (h : ctResizeRefuses (a.polys.size + b.polys.size - 1) = true) : bfvMultiply l T a b = .error .refused := by
+  rw [c02w_bfvMultiply_eq]
+  split
+  · rfl
+  · first | rfl | rw [if_pos h]
+
+/-- a successful BEHZ product had an admissible destination size -/
+theorem bfvMultiply_ok_size {l : Level} {T : Array NTTTables} {a b r : Ct} (hr : bfvMultiply l T a b = .ok r) :
+    ctResizeRefuses (a.polys.size + b.polys.size - 1) = false := by
+  cases h : ctResizeRefuses (a.polys.size + b.polys.size - 1) with
+  | false => rfl
+  | true => rw [bfvMultiply_refuse_size l T a b h] at hr; cases hr
+
+theorem bfvMultiply_ok_le16 {l : Level} {T : Array NTTTables} {a b r : Ct} (hr : bfvMultiply l T a b = .ok r) :
+    a.polys.size + b.polys.size - 1 ≤ 16 := by
+  have := (ctResizeRefuses_eq_false_iff _).mp (bfvMultiply_ok_size hr)
+  omega
+
+/-- refusal: an operand without polynomials (by `resize` when the other operand has two, otherwise after the lifts of both
+    operands succeeded) -/
 theorem bfvMultiply_refuse_empty {l : Level} {T : Array NTTTables} (hm : MulOK l T) {a b : Ct}
     (ha : ∀ k, k < a.polys.size → RnsCanon l (a.polys.getD k #[]))
     (hb : ∀ k, k < b.polys.size → RnsCanon l (b.polys.getD k #[]))
@@ -1982,7 +2009,10 @@ theorem bfvMultiply_refuse_empty {l : Level} {T : Array NTTTables} (hm : MulOK l
     bfvMultiply l T a b = .error .refused := by
   obtain ⟨ab, hA, _, _⟩ := c02w_lift_spec hm ha
   obtain ⟨bb, hB, _, _⟩ := c02w_lift_spec hm hb
-  rw [c02w_bfvMultiply_eq, if_neg (by simp [hna, hnb]), hA, ok_bind, hB, ok_bind, if_pos h]
+  cases hsz : ctResizeRefuses (a.polys.size + b.polys.size - 1) with
+  | true => exact bfvMultiply_refuse_size l T a b hsz
+  | false =>
+    rw [c02w_bfvMultiply_eq, if_neg (by simp [hna, hnb]), if_neg (by simp [hsz]), hA, ok_bind, hB, ok_bind, if_pos h]
 
 /-! ### W2 -/
 
@@ -2012,7 +2042,7 @@ theorem bfvMultiply_coeff {l : Level} {T : Array NTTTables} (hm : MulOK l T) {a 
         ((l.t.value : Int) * c02w_Z a.polys.size b.polys.size l.n
             (fun x j => c02w_liftZ l.tool (a.polys.getD x #[]) j) (fun y j => c02w_liftZ l.tool (b.polys.getD y #[]) j) k c
           / l.tool.baseQ.prod - al) % (l.q i).value := by
-  obtain ⟨r', hr', _, _, _, _, hv⟩ := bfvMultiply_ok hm ha hb hna hnb h1 h2
+  obtain ⟨r', hr', _, _, _, _, hv⟩ := bfvMultiply_ok hm ha hb hna hnb h1 h2 (bfvMultiply_ok_size hr)
   rw [hr] at hr'
   obtain rfl := Except.ok.inj hr'
   intro k hk c hc
